@@ -631,6 +631,16 @@ def _matching_handler(handlers, raised):
     return None
 
 
+def _default_value(folder, node, env):
+    """A default is evaluated ONCE, when the def statement runs: a mutable default ([] / {}) is one object shared by every call."""
+    if isinstance(node, ast.Constant):
+        return node.value
+    cache = folder.__dict__.setdefault("_default_values", {})
+    if id(node) not in cache:
+        cache[id(node)] = (node, folder.expr(node, env))
+    return cache[id(node)][1]
+
+
 def bind_arguments(folder, fnode, args, kw, env):
     ps = fnode.args
     names = [p.arg for p in ps.posonlyargs + ps.args]
@@ -644,7 +654,7 @@ def bind_arguments(folder, fnode, args, kw, env):
         elif nm in kw:
             env[nm] = kw.pop(nm)
         elif nm in defaults:
-            env[nm] = folder.expr(defaults[nm], env)
+            env[nm] = _default_value(folder, defaults[nm], env)
         else:
             raise FoldedRaise("TypeError", "missing argument %s" % nm)
     rest = args[len(names):]
@@ -656,7 +666,7 @@ def bind_arguments(folder, fnode, args, kw, env):
         if p.arg in kw:
             env[p.arg] = kw.pop(p.arg)
         elif d is not None:
-            env[p.arg] = folder.expr(d, env)
+            env[p.arg] = _default_value(folder, d, env)
         else:
             raise FoldedRaise("TypeError", "missing keyword-only argument")
     if ps.kwarg:
